@@ -2,9 +2,10 @@
 
 The theorems (coq/theories/C17) are about an interleaving model parametrised by the generator's
 synchronisation DISCIPLINE.  The discipline of the current source is extracted on every run by
-`extract_discipline` below and an obligation `safe <extracted discipline>` is compiled against the proved
-theorems; real threads are run and their per-thread priority lists compared with the model and the spec;
-a two-thread program is run under Miri.
+`extract_discipline` below (conservatively: whatever is not exactly one of the proved protocols is Unknown) and an
+obligation `safe <extracted discipline>` is compiled against the proved theorems; real threads are run in several
+topologies and the priorities of ALL nodes each thread creates are compared with the model and the spec; the same
+jobs run under Miri (several seeds); large runs of both build profiles are checked against the spec in Python.
 """
 import os
 import re
@@ -46,92 +47,622 @@ THEOREMS = [
      "let m := run N.succ (fun x => x) SplitAtomic (init 0%N [1; 3]) dup_sched in "
      "map snd (log m) = [1; 2; 1; 2]%N /\\ map (@seen N) (threads m) = [[1]; [1; 2; 2]]%N"),
 ]
-RULE = ("cases = (threads T in 2..16, nodes per thread K) runs of real threads started on a barrier, in debug and "
-        "release; observation = per-thread priority lists, the list ONE thread draws alone, and whether each thread's "
-        "treap program gave the same results as when run alone; non-trivial = T >= 2 and K >= 2")
-TRUSTED = ["checks/c17.py extract_discipline: a textual classifier of rlib/treap/src/treap_node.rs "
-           "(thread_local! / static mut / Atomic* with fetch_update|compare_exchange|fetch_add / Mutex)",
-           "executor harness/crates/c17 (threads, barrier, recording of TreapNode::priority)",
-           "Miri (cargo +nightly miri) as the data-race oracle for the Rust memory model",
-           "scheduling by the OS: the explored interleavings are whatever 2-16 real threads produce"]
+RULE = ("cases = (topology, threads T in 1..64, direct nodes K per thread, program size P, program kind, uneven) runs of real "
+        "threads in debug and release; topologies: barrier start, main thread included, nested spawn in the middle of a "
+        "stream, one thread after the other, treap handed to another thread; observation = for each logical thread the "
+        "priority of EVERY node it created (TreapNode::new through 3 instantiations, Treap::insert_at, Treap::from_item), the "
+        "list ONE thread draws alone, and whether each thread's treap program (insert_at/remove_at/split_at/split_by/"
+        "from_item/merge/first/last/root_mut/collect/Debug/TreePrinter, plain and lazy items) gave the results it gives "
+        "alone and passed its integrity walk; non-trivial = at least 2 logical threads and K + P >= 2")
+TRUSTED = ["checks/c17.py extract_discipline: a conservative textual classifier of rlib/treap/src/*.rs and, following calls by "
+           "name, of the path dependencies (rlib/rand/src/*.rs): ThreadLocal only if the generator state is the value of a "
+           "thread_local Cell/RefCell and no shared static / unsafe / unread crate is reachable; AtomicRMW only for exactly one "
+           "read-modify-write (or one compare_exchange retry loop); Locked only for one let-bound guard; anything else Unknown "
+           "(= broken obligation)",
+           "executor harness/crates/c17 (threads, barriers, reading TreapNode::priority back through the public fields)",
+           "Miri (cargo +nightly miri, several seeds) as the data-race oracle for the Rust memory model; when Miri is not "
+           "usable in the environment (probe program fails too) the run says so and does not alarm",
+           "scheduling by the OS: the explored interleavings are whatever 1-64 real threads produce"]
 ASSUMPTIONS = ["undefined behaviour as such (compiler assumptions about static mut) is a runtime notion outside the model: "
                "the model speaks of enabled conflicting non-atomic accesses; Miri covers the Rust memory model on one program",
-               "threads that share no treap can interfere only through the priority generator (all other state is owned)",
+               "threads that share no treap can interfere only through the priority generator (all other state is owned); "
+               "the extractor's scan for shared statics / unsafe in the treap crate and the reached part of its dependencies "
+               "and Miri are the evidence for this",
                "treap results as a function of priorities are the subject of C03 (sequence semantics for every priority stream)"]
 MANIFEST = {
     "text": "Coq theorems (no axioms) about an interleaving model of priority draws, generic in the generator and quantified over "
             "every number of threads, every program and every schedule: a thread-local generator (the current code), an atomic "
             "read-modify-write generator and a mutex-protected generator are race free and every thread observes a sequentially explicable stream (thread-local: "
             "exactly its solo stream); the unsynchronised static and the split atomic load/store are refuted by witnesses. The "
-            "discipline is extracted from the source on every run and `safe <discipline>` is re-proved from the theorems; real "
-            "threads (2-16, debug+release) are compared with model and spec in Coq; a two-thread program runs under Miri. "
+            "discipline is extracted conservatively from the sources of the treap crate and the code it reaches in rlib_rand on "
+            "every run (anything not exactly one of the proved protocols is Unknown = broken obligation) and `safe <discipline>` "
+            "is re-proved from the theorems; real threads (1-64, debug+release, five thread topologies including hand-over of a "
+            "treap to another thread) are compared with model and spec in Coq on the priorities of ALL nodes they create "
+            "(every constructor path), with integrity walks of the trees; the same jobs run under Miri with several seeds. "
             "PARTIAL: undefined behaviour itself is a runtime notion; only Miri (one program) and the stress runs speak about it.",
     "level_note": "Trusted: Coq kernel + vm_compute; the textual discipline extractor; the executor; Miri; OS scheduling decides "
                   "which interleavings the correspondence explores (the theorems cover all of them for the model).",
-    "technique": "Coq proof over an interleaving model + discipline extraction from source + threaded correspondence + Miri",
+    "technique": "Coq proof over an interleaving model + conservative discipline extraction from source + threaded correspondence + Miri",
 }
 
 _state = {}
 
 
-def strip_rust_comments(src):
-    src = re.sub(r"/\*.*?\*/", " ", src, flags=re.S)
-    return re.sub(r"//[^\n]*", " ", src)
+# ----------------------------------------------------------------------------- discipline extractor
+# A deliberately CONSERVATIVE textual analysis.  It reads every Rust file of the treap crate and of the
+# crates it depends on by path (today: rlib_rand), follows calls by NAME from the treap crate into
+# those crates, and answers one of
+#   ThreadLocal  the generator state itself is the value of a `thread_local!` static (Cell/RefCell of a
+#                plain value), and nothing reachable from the treap code touches a shared static or `unsafe`
+#   AtomicRMW    exactly one shared static, an std atomic integer, named in exactly one function, accessed
+#                there by exactly ONE read-modify-write per call (fetch_*/swap as the only access, outside
+#                any loop), or by one compare_exchange whose result decides a retry loop (+ at most one load)
+#   Locked       exactly one shared static, a Mutex/RwLock, named once: `let g = S.lock().unwrap();`
+#                (RwLock: `.write()`), so that ONE guard covers the read and the write
+#   SplitAtomic  an atomic accessed by load(s) and store(s) only     (refuted in Properties.v)
+#   Racy         `static mut`, UnsafeCell, `unsafe impl Sync/Send`    (refuted in Properties.v)
+#   Unknown      everything else: no theorem is applied; the run reports a broken obligation and relies on
+#                the stress / Miri searches for a witness
+STD_ROOTS = {"std", "core", "alloc", "crate", "self", "super", "Self"}
+RMW_SINGLE = {"fetch_update", "fetch_add", "fetch_sub", "fetch_xor", "fetch_or", "fetch_and", "fetch_nand",
+              "fetch_max", "fetch_min", "swap"}
+ATOMIC_TY = re.compile(r"^(?:(?:std|core)::sync::atomic::|atomic::)?Atomic(?:U8|U16|U32|U64|Usize|I8|I16|I32|I64|Isize)$")
+MUTEX_TY = re.compile(r"^(?:std::sync::|sync::)?Mutex<.*>$", re.S)
+RWLOCK_TY = re.compile(r"^(?:std::sync::|sync::)?RwLock<.*>$", re.S)
+TL_CELL_TY = re.compile(r"^(?:(?:std|core)::cell::|cell::)?(?:Cell|RefCell)<(.*)>$", re.S)
+HARMLESS_STATIC_TY = re.compile(r"^(?:[\s&\[\]();,0-9]|'static|\b(?:u8|u16|u32|u64|u128|usize|i8|i16|i32|i64|i128|isize|"
+                                r"f32|f64|bool|char|str)\b)+$")
+SHARED_HANDLE = re.compile(r"&|\*\s*(?:const|mut)\b|'static|\b(?:Arc|Rc|Weak|Box\s*<\s*dyn|dyn|fn|Fn|FnMut|Atomic\w*|Mutex|"
+                           r"RwLock|Condvar|Once\w*|Lazy\w*|NonNull|UnsafeCell)\b")
+LAZY_STATIC = re.compile(r"\blazy_static\s*!|\bstatic\s+ref\b|\b(?:OnceLock|OnceCell|LazyLock|LazyCell|Lazy|SyncLazy|SyncOnceCell|Once)\b")
+
+
+def clean_rust(src):
+    """comments -> blanks, contents of string/char literals -> blanks (lengths and newlines preserved)"""
+    out, i, n = [], 0, len(src)
+
+    def blank(s):
+        return "".join(c if c == "\n" else " " for c in s)
+    while i < n:
+        c = src[i]
+        if src.startswith("//", i):
+            j = src.find("\n", i)
+            j = n if j < 0 else j
+            out.append(blank(src[i:j]))
+            i = j
+        elif src.startswith("/*", i):
+            depth, j = 1, i + 2
+            while j < n and depth:
+                if src.startswith("/*", j):
+                    depth, j = depth + 1, j + 2
+                elif src.startswith("*/", j):
+                    depth, j = depth - 1, j + 2
+                else:
+                    j += 1
+            out.append(blank(src[i:j]))
+            i = j
+        elif c == '"' or (c in "rb" and re.match(r'(?:b?r#*"|b")', src[i:i + 8]) and (i == 0 or not (src[i - 1].isalnum() or src[i - 1] == "_"))):
+            m = re.match(r'(b?r)(#*)"', src[i:])
+            if m:
+                close = '"' + m.group(2)
+                j = src.find(close, i + m.end())
+                j = n if j < 0 else j + len(close)
+            else:
+                j = i + (2 if c == "b" else 1)
+                while j < n and src[j] != '"':
+                    j += 2 if src[j] == "\\" else 1
+                j = min(n, j + 1)
+            out.append('"' + blank(src[i + 1:j - 1]) + '"' if j - i >= 2 else src[i:j])
+            i = j
+        elif c == "'":
+            m = re.match(r"'(?:\\(?:x[0-9a-fA-F]{2}|u\{[0-9a-fA-F_]+\}|.)|[^\\'\n])'", src[i:])
+            if m:
+                out.append("'" + " " * (m.end() - 2) + "'")
+                i += m.end()
+            else:
+                out.append(c)      # a lifetime
+                i += 1
+        else:
+            out.append(c)
+            i += 1
+    return "".join(out)
+
+
+def match_close(s, i):
+    """index just after the bracket that closes the one at s[i]"""
+    pairs = {"{": "}", "(": ")", "[": "]"}
+    stack, j = [pairs[s[i]]], i + 1
+    while j < len(s) and stack:
+        ch = s[j]
+        if ch in pairs:
+            stack.append(pairs[ch])
+        elif ch in "})]":
+            if stack and ch == stack[-1]:
+                stack.pop()
+        j += 1
+    return j
+
+
+def drop_test_code(s):
+    """`#[cfg(test)]` items and `#[test]` functions are not part of the library"""
+    while True:
+        m = re.search(r"#\s*\[\s*(?:cfg\s*\(\s*test\s*\)|test)\s*\]", s)
+        if not m:
+            return s
+        j = m.end()
+        k = j
+        while k < len(s) and s[k] not in "{;":
+            k += 1
+        e = match_close(s, k) if k < len(s) and s[k] == "{" else min(len(s), k + 1)
+        s = s[:m.start()] + re.sub(r"[^\n]", " ", s[m.start():e]) + s[e:]
+
+
+STATIC_DECL = re.compile(r"(?<!')\bstatic\s+(mut\s+)?(ref\s+)?([A-Za-z_]\w*)\s*:")
+
+
+def decl_type_init(s, pos):
+    """type text and initialiser text of a `static NAME:` declaration whose `:` ends at pos"""
+    depth, j, eq = 0, pos, None
+    while j < len(s):
+        ch = s[j]
+        if ch in "([{<":
+            depth += 1
+        elif ch in ")]}":
+            depth -= 1
+        elif ch == ">" and s[j - 1] not in "-=":
+            depth -= 1
+        elif ch == "=" and depth == 0 and eq is None and s[j + 1:j + 2] != "=":
+            eq = j
+        elif ch == ";" and depth <= 0:
+            break
+        j += 1
+    ty = s[pos:eq if eq is not None else j]
+    init = s[eq + 1:j] if eq is not None else ""
+    return re.sub(r"\s+", "", ty).replace("'static", "'static "), init
+
+
+FEATURE_GATE = re.compile(r'#\s*\[\s*cfg\s*\(\s*feature\s*=\s*"([^"]*)"\s*\)\s*\]')
+
+
+def drop_feature_gated(raw, cleaned, default_features, dropped):
+    """items under `#[cfg(feature = "f")]` with f not a default feature are not part of the build the executor
+    (and a user) gets: blank them.  `cleaned` has the string contents blanked, so the name is read from `raw`."""
+    for m in list(FEATURE_GATE.finditer(cleaned)):
+        name = raw[m.start(1):m.end(1)].strip()
+        if name in default_features:
+            continue
+        k = m.end()
+        while k < len(cleaned) and cleaned[k] not in "{;":
+            k += 1
+        e = match_close(cleaned, k) if k < len(cleaned) and cleaned[k] == "{" else min(len(cleaned), k + 1)
+        item = re.search(r"\b(?:fn|static|mod|impl|struct|enum|const|use|type|trait)\s+(?:mut\s+)?([A-Za-z_]\w*)", cleaned[m.end():e])
+        dropped.append("%s (feature %s)" % (item.group(1) if item else "?", name))
+        cleaned = cleaned[:m.start()] + re.sub(r"[^\n]", " ", cleaned[m.start():e]) + cleaned[e:]
+    return cleaned
+
+
+def parse_crate(files, default_features=()):
+    """files: {path: text}.  Returns dict(text=..., tls=[...], statics=[...], fns=[...], uses={name: root}, mods=set)"""
+    tls, statics, fns, uses, mods, texts, dropped = [], [], [], {}, set(), {}, []
+    for path in sorted(files):
+        s = drop_test_code(drop_feature_gated(files[path], clean_rust(files[path]), set(default_features), dropped))
+        # thread_local! { ... } with any delimiter
+        outside = s
+        for m in list(re.finditer(r"\bthread_local\s*!\s*([\{\(\[])", s)):
+            e = match_close(s, m.end() - 1)
+            body = s[m.end():e - 1]
+            for d in STATIC_DECL.finditer(body):
+                ty, init = decl_type_init(body, d.end())
+                tls.append(dict(name=d.group(3), type=ty, init=init, file=path))
+            outside = outside[:m.start()] + re.sub(r"[^\n]", " ", outside[m.start():e]) + outside[e:]
+        for d in STATIC_DECL.finditer(outside):
+            ty, init = decl_type_init(outside, d.end())
+            statics.append(dict(name=d.group(3), mut=bool(d.group(1)), ref=bool(d.group(2)), type=ty, init=init, file=path))
+        for m in re.finditer(r"\bfn\s+([A-Za-z_]\w*)", outside):
+            j, depth = m.end(), 0
+            while j < len(outside):
+                ch = outside[j]
+                if ch in "([":
+                    depth += 1
+                elif ch in ")]":
+                    depth -= 1
+                elif depth == 0 and ch in "{;":
+                    break
+                j += 1
+            if j < len(outside) and outside[j] == "{":
+                e = match_close(outside, j)
+                head = outside[max(0, m.start() - 40):m.start()]
+                fns.append(dict(name=m.group(1), body=outside[j:e], file=path,
+                                unsafe_fn=re.search(r"\bunsafe\s+(?:extern\s+\"[^\"]*\"\s+)?$", head) is not None))
+        for m in re.finditer(r"\buse\s+([^;]+);", outside):
+            tree = re.sub(r"\s+", "", m.group(1))
+            root = re.match(r"(?:::)?([A-Za-z_]\w*)", tree)
+            root = root.group(1) if root else "?"
+            for nm in re.findall(r"([A-Za-z_]\w*)(?=[,}]|$)", tree):
+                uses[nm] = root
+        for m in re.finditer(r"\bextern\s+crate\s+([A-Za-z_]\w*)", outside):
+            uses[m.group(1)] = m.group(1)
+        mods.update(re.findall(r"\bmod\s+([A-Za-z_]\w*)", outside))
+        texts[path] = s
+    return dict(texts=texts, text="\n".join(texts[p] for p in sorted(texts)), tls=tls, statics=statics, fns=fns,
+                uses=uses, mods=mods, dropped=dropped)
+
+
+def idents(text):
+    return set(re.findall(r"[A-Za-z_]\w*", text))
+
+
+def statement_prefix(body, pos):
+    """text from the start of the statement/arm containing pos up to pos"""
+    j = pos
+    while j > 0 and body[j - 1] not in ";{}":
+        j -= 1
+    pre = body[j:pos]
+    # a match arm `pat => expr`: the expression starts after the arrow
+    k = pre.rfind("=>")
+    return pre[k + 2:] if k >= 0 else pre
+
+
+def enclosing_headers(body, pos):
+    """for every block that encloses pos: the text that introduces it (`loop`, `while cond`, `if x`, `|s|` ...)"""
+    heads, stack = [], []
+    for j in range(pos):
+        ch = body[j]
+        if ch == "{":
+            stack.append(j)
+        elif ch == "}" and stack:
+            stack.pop()
+    for j in stack:
+        k = j
+        while k > 0 and body[k - 1] not in ";{}":
+            k -= 1
+        heads.append(body[k:j])
+    return heads
+
+
+LOOP_HEAD = re.compile(r"^\s*(?:'\w+\s*:\s*)?(?:loop|while|for)\b")
+
+
+def in_loop(body, pos):
+    return any(LOOP_HEAD.match(h) for h in enclosing_headers(body, pos))
+
+
+def analyse_shared(st, body):
+    """one shared static `st`, named only inside `body` (a function body): which protocol?"""
+    name = st["name"]
+    occ = [m.start() for m in re.finditer(r"\b%s\b" % re.escape(name), body)
+           if not re.search(r"\bstatic\s+(?:mut\s+)?$", body[:m.start()])]      # its own declaration inside the fn
+    calls = []
+    for p in occ:
+        m = re.match(r"%s\s*\.\s*([A-Za-z_]\w*)\s*(?:::\s*<[^>]*>\s*)?\(" % re.escape(name), body[p:])
+        if m and re.search(r"\*\s*$", body[:p]):
+            return "Unknown", "a temporary guard/value is dereferenced (`*%s.%s()`): whatever protects it ends with that statement" % (name, m.group(1))
+        if not m or (p > 0 and re.search(r"[&.]\s*$", body[:p])):
+            return "Unknown", "the static is used other than by a direct method call (alias/reference)"
+        calls.append((p, m.group(1), p + m.end()))
+    meths = sorted(c[1] for c in calls)
+    ty = st["type"].strip()
+    if ATOMIC_TY.match(ty):
+        if len(calls) == 1 and meths[0] in RMW_SINGLE:
+            if in_loop(body, calls[0][0]):
+                return "Unknown", "the read-modify-write is repeated in a loop (more than one per draw)"
+            return "AtomicRMW", "single %s" % meths[0]
+        cas = [c for c in calls if c[1] in ("compare_exchange", "compare_exchange_weak")]
+        rest = [c for c in calls if c not in cas]
+        if len(cas) == 1 and len(rest) <= 1 and all(c[1] == "load" for c in rest):
+            p = cas[0][0]
+            pre = statement_prefix(body, p)
+            looped = in_loop(body, p) or re.match(r"^\s*(?:'\w+\s*:\s*)?while\b", pre)
+            decides = re.match(r"^\s*(?:'\w+\s*:\s*)?(?:(?:return\s+|break\s+)?match|if|while)\b", pre) is not None
+            if looped and decides:
+                return "AtomicRMW", "compare_exchange retry loop"
+            return "Unknown", "compare_exchange whose failure does not visibly lead to a retry"
+        if meths and set(meths) <= {"load", "store"} and "load" in meths and "store" in meths:
+            return "SplitAtomic", "separate load and store"
+        return "Unknown", "atomic accessed by %s: not one read-modify-write" % "+".join(meths)
+    want = "lock" if MUTEX_TY.match(ty) else ("write" if RWLOCK_TY.match(ty) else None)
+    if want:
+        if len(calls) != 1 or meths[0] != want:
+            return "Unknown", "lock taken %d times / by %s: not one guard for the read and the write" % (len(calls), "+".join(meths))
+        p, _, after = calls[0]
+        if in_loop(body, p):
+            return "Unknown", "lock taken in a loop"
+        pre = statement_prefix(body, p)
+        m = re.match(r"^\s*let\s+(?:mut\s+)?([A-Za-z_]\w*)\s*(?::[^=]+)?=\s*$", pre)
+        close = match_close(body, after - 1)
+        tail = body[close:body.find(";", close) if body.find(";", close) >= 0 else len(body)]
+        tail_ok = re.match(r"^\s*(?:\.\s*(?:unwrap|expect|unwrap_or_else)\s*\((?:[^()]|\((?:[^()]|\([^()]*\))*\))*\))?\s*$", tail) is not None
+        if not m or m.group(1) == "_" or not tail_ok:
+            return "Unknown", "the guard is not bound by a plain `let g = S.%s()...;` (a temporary guard ends with its statement)" % want
+        g = m.group(1)
+        rest = body[close:]
+        if not re.search(r"\b%s\b" % re.escape(g), rest):
+            return "Unknown", "the guard is never used"
+        return "Locked", "one %s() guard `%s`" % (want, g)
+    return "Unknown", "shared static of type %s" % ty
+
+
+def classify_sources(treap_files, dep_crates, foreign_deps=(), default_features=None):
+    """treap_files: {path: text} of the treap crate; dep_crates: {crate_name: {path: text}} (path dependencies,
+    transitively); foreign_deps: names of dependencies whose source is not available; default_features:
+    {crate name or "" for the treap crate: set of features that are on by default}.  -> (discipline, facts)"""
+    default_features = default_features or {}
+    T = parse_crate(treap_files, default_features.get("", ()))
+    D = {c: parse_crate(f, default_features.get(c, ())) for c, f in dep_crates.items()}
+    facts = {}
+    gated = T["dropped"] + [x for p in D.values() for x in p["dropped"]]
+    if gated:
+        facts["not_in_the_default_build"] = gated
+    # --- what is reachable: the whole treap crate; functions of the dependencies by name, transitively
+    reach_text = [T["text"]]
+    dep_fns = [f for c in D.values() for f in c["fns"]]
+    by_name = {}
+    for f in dep_fns:
+        by_name.setdefault(f["name"], []).append(f)
+    seen, work = set(), [n for n in idents(T["text"]) if n in by_name]
+    dep_statics = [dict(s, crate=c) for c, p in D.items() for s in p["statics"]]
+    dep_tls = [t for p in D.values() for t in p["tls"]]
+    reached_fns = []
+    while work:
+        n = work.pop()
+        if n in seen:
+            continue
+        seen.add(n)
+        for f in by_name.get(n, []):
+            reached_fns.append(f)
+            reach_text.append(f["body"])
+            ids = idents(f["body"])
+            work += [x for x in ids if x in by_name and x not in seen]
+            # initialisers of statics named there are reachable too
+            for s in dep_statics + dep_tls:
+                if s["name"] in ids:
+                    reach_text.append(s["init"])
+                    work += [x for x in idents(s["init"]) if x in by_name and x not in seen]
+    reach = "\n".join(reach_text)
+    rid = idents(reach)
+    facts["reached_dependency_fns"] = sorted({f["name"] for f in reached_fns})
+    # --- statics
+    statics = T["statics"] + [s for s in dep_statics if s["name"] in rid]
+    tls = T["tls"] + [t for t in dep_tls if t["name"] in rid]
+    shared = [s for s in statics if s["mut"] or s["ref"] or not HARMLESS_STATIC_TY.match(s["type"])]
+    facts["thread_locals"] = ["%s: %s" % (t["name"], t["type"]) for t in tls]
+    facts["shared_statics"] = ["%s%s: %s (%s)" % ("mut " if s["mut"] else "", s["name"], s["type"], os.path.basename(s["file"])) for s in shared]
+    # --- things no discipline of the model describes
+    racy = [s["name"] for s in shared if s["mut"]]
+    if re.search(r"\b(?:UnsafeCell|SyncUnsafeCell)\b", reach) or \
+            any(re.search(r"\bunsafe\s+impl\b", p["text"]) for p in [T] + list(D.values())):
+        racy.append("UnsafeCell / unsafe impl")
+    if racy:
+        facts["racy"] = racy
+        return "Racy", facts
+    unknown = []
+    if re.search(r"\bunsafe\b", reach) or any(f["unsafe_fn"] for f in reached_fns):
+        unknown.append("`unsafe` is reachable from the treap code")
+    if LAZY_STATIC.search(reach):
+        unknown.append("lazily initialised global (lazy_static / Once* / Lazy*) reachable from the treap code")
+    # crates whose source was not read
+    scanned = set(D)
+    roots = set()
+    for txt, P in [(T["text"], T)] + [(f["body"], D_) for D_ in D.values() for f in reached_fns if f in D_["fns"]]:
+        for m in re.finditer(r"(?<![\w:>])(?:::)?([a-z_][a-z0-9_]*)\s*::", txt):
+            r = m.group(1)
+            r = P["uses"].get(r, r)
+            if r not in STD_ROOTS and r not in scanned and r not in P["mods"]:
+                roots.add(r)
+        for nm in idents(txt):
+            r = P["uses"].get(nm)
+            if r and r not in STD_ROOTS and r not in scanned and r not in P["mods"]:
+                roots.add(r)
+    for nm, r in T["uses"].items():
+        if r not in STD_ROOTS and r not in scanned and r not in T["mods"]:
+            roots.add(r)
+    roots |= {d for d in foreign_deps if d in rid}
+    if roots:
+        unknown.append("code of crate(s) %s is used but was not read" % ", ".join(sorted(roots)))
+    # --- the generator
+    if not shared:
+        used_tls = [t for t in tls
+                    if any(re.search(r"\b%s\b" % re.escape(t["name"]), f["body"]) for f in T["fns"] + reached_fns)]
+        if not used_tls:
+            unknown.append("no generator state found (neither a thread_local nor a shared static is used)")
+        for t in used_tls:
+            m = TL_CELL_TY.match(t["type"])
+            if not m:
+                unknown.append("thread_local %s has type %s, not Cell/RefCell of a value" % (t["name"], t["type"]))
+            elif SHARED_HANDLE.search(m.group(1)):
+                unknown.append("thread_local %s holds a handle (%s), the state itself may be shared" % (t["name"], m.group(1)))
+        if unknown:
+            facts["unknown_because"] = unknown
+            return "Unknown", facts
+        facts["generator"] = "thread_local " + ", ".join(t["name"] for t in used_tls)
+        return "ThreadLocal", facts
+    if tls:
+        unknown.append("shared static(s) and thread_local state are mixed")
+    if len(shared) != 1:
+        unknown.append("%d shared statics" % len(shared))
+    if unknown:
+        facts["unknown_because"] = unknown
+        return "Unknown", facts
+    st = shared[0]
+    users = [f for f in T["fns"] + reached_fns if re.search(r"\b%s\b" % re.escape(st["name"]), f["body"])]
+    in_inits = any(re.search(r"\b%s\b" % re.escape(st["name"]), x["init"]) for x in statics + tls)
+    if len(users) != 1 or in_inits or st["file"] not in treap_files:
+        facts["unknown_because"] = ["the shared static %s is named in %d functions (%s)%s: cannot see one access protocol" % (
+            st["name"], len(users), ", ".join(sorted(f["name"] for f in users)), " and in an initialiser" if in_inits else "")]
+        return "Unknown", facts
+    d, why = analyse_shared(st, users[0]["body"])
+    facts["generator"] = "%s in fn %s: %s" % (st["name"], users[0]["name"], why)
+    if d == "Unknown":
+        facts["unknown_because"] = [why]
+    return d, facts
+
+
+def read_crate(cdir):
+    files = {}
+    sdir = os.path.join(cdir, "src")
+    for root, _, names in os.walk(sdir):
+        for nm in names:
+            if nm.endswith(".rs"):
+                p = os.path.join(root, nm)
+                files[p] = open(p, errors="replace").read()
+    return files
+
+
+def crate_deps(cdir):
+    """([(name, dir)] of path dependencies, [names of the others]) from Cargo.toml ([dependencies] only)"""
+    try:
+        toml = open(os.path.join(cdir, "Cargo.toml")).read()
+    except OSError:
+        return [], []
+    m = re.search(r"^\[dependencies\]\s*$(.*?)(?=^\[|\Z)", toml, re.M | re.S)
+    paths, others = [], []
+    for line in (m.group(1) if m else "").splitlines():
+        line = line.split("#")[0].strip()
+        mm = re.match(r"([A-Za-z0-9_\-]+)\s*=\s*(.*)", line)
+        if not mm:
+            continue
+        name = mm.group(1).replace("-", "_")
+        pm = re.search(r"path\s*=\s*\"([^\"]+)\"", mm.group(2))
+        if pm:
+            paths.append((name, os.path.normpath(os.path.join(cdir, pm.group(1)))))
+        else:
+            others.append(name)
+    return paths, others
+
+
+def default_features_of(cdir):
+    """features of the crate that are on in a default build ([features] default = [...], one level of implication)"""
+    try:
+        toml = open(os.path.join(cdir, "Cargo.toml")).read()
+    except OSError:
+        return set()
+    m = re.search(r"^\[features\]\s*$(.*?)(?=^\[|\Z)", toml, re.M | re.S)
+    table = {}
+    for mm in re.finditer(r"^\s*([A-Za-z0-9_\-]+)\s*=\s*\[(.*?)\]", re.sub(r"#[^\n]*", "", m.group(1)) if m else "", re.M | re.S):
+        table[mm.group(1)] = re.findall(r"\"([^\"]+)\"", mm.group(2))
+    on, todo = set(), list(table.get("default", []))
+    while todo:
+        f = todo.pop()
+        if f not in on:
+            on.add(f)
+            todo += table.get(f, [])
+    return on
+
+
+def gather_sources(repo):
+    tdir = os.path.join(repo, "rlib", "treap")
+    deps, foreign, todo, seen = {}, [], [tdir], set()
+    feats = {"": default_features_of(tdir)}
+    while todo:
+        c = todo.pop()
+        if c in seen:
+            continue
+        seen.add(c)
+        paths, others = crate_deps(c)
+        foreign += others
+        for name, d in paths:
+            if d not in seen:
+                deps[name] = read_crate(d)
+                feats[name] = default_features_of(d)
+                todo.append(d)
+    return read_crate(tdir), deps, foreign, feats
 
 
 def extract_discipline(repo):
-    """Classify how gen_priority()'s generator is shared between threads."""
-    path = os.path.join(repo, "rlib", "treap", "src", "treap_node.rs")
-    src = strip_rust_comments(open(path).read())
-    has_tl = "thread_local!" in src
-    has_static_mut = re.search(r"\bstatic\s+mut\b", src) is not None
-    has_plain_static = re.search(r"^\s*(pub\s+)?static\s+(?!mut\b)\w+\s*:", src, re.M) is not None
-    has_atomic = re.search(r"\bAtomic(U64|Usize|U32|I64)\b", src) is not None
-    has_rmw = re.search(r"\.(fetch_update|compare_exchange|compare_exchange_weak|fetch_add|fetch_xor|swap)\s*\(", src) is not None
-    has_load_store = re.search(r"\.load\s*\(", src) is not None and re.search(r"\.store\s*\(", src) is not None
-    has_mutex = re.search(r"\b(Mutex|RwLock)\b", src) is not None and re.search(r"\.(lock|write)\s*\(", src) is not None
-    has_unsafe_cell = re.search(r"\b(UnsafeCell|SyncUnsafeCell)\b", src) is not None or "unsafe impl Sync" in src
-    # statics declared inside thread_local! { ... } are per thread
-    tl_body = " ".join(re.findall(r"thread_local!\s*\{(.*?)\n\}", src, re.S))
-    statics_outside_tl = re.sub(r"thread_local!\s*\{.*?\n\}", " ", src, flags=re.S)
-    shared_static = re.search(r"\bstatic\s+(mut\s+)?\w+\s*:", statics_outside_tl) is not None
-    facts = dict(thread_local=has_tl, static_mut=has_static_mut, shared_static=shared_static, atomic=has_atomic,
-                 rmw=has_rmw, load_store=has_load_store, mutex=has_mutex, unsafe_cell=has_unsafe_cell)
-    if has_static_mut or has_unsafe_cell:
-        return "Racy", facts
-    if shared_static:
-        if has_mutex:
-            return "Locked", facts
-        if has_atomic and has_rmw and not has_load_store:
-            return "AtomicRMW", facts
-        if has_atomic and has_load_store:
-            return "SplitAtomic", facts
-        return "Unknown", facts
-    if has_tl and "RNG" in tl_body or (has_tl and not shared_static):
-        return "ThreadLocal", facts
-    return "Unknown", facts
+    """Classify how the priority generator of the treap crate is shared between threads."""
+    treap_files, deps, foreign, feats = gather_sources(repo)
+    d, facts = classify_sources(treap_files, deps, foreign, feats)
+    facts["files_read"] = sorted(os.path.relpath(p, repo) for p in list(treap_files) + [p for f in deps.values() for p in f])
+    return d, facts
 
 
 def prepare(ctx):
     d, facts = extract_discipline(ctx.repo)
     _state["discipline"], _state["facts"] = d, facts
-    ctx.say("[C17] extracted discipline: %s %s" % (d, {k: v for k, v in facts.items() if v}))
+    ctx.say("[C17] extracted discipline: %s %s" % (d, {k: v for k, v in facts.items() if v and k != "files_read"}))
+
+
+# ----------------------------------------------------------------------------- cases
+TOPOS = ["spawn", "main", "nested", "stagger", "handoff"]
+SEARCH_MAX = 120        # enlarged search after a model-only mismatch
+ESCALATE_MAX = 16       # extra thorough-tier cases when the anchored source text changed (they are the heavy ones)
+
+
+def mk(topo, t, k, p, kind, uneven=0, rep=0):
+    return {"topo": topo, "threads": t, "nodes": k, "prog": p, "kind": kind, "uneven": uneven, "rep": rep}
+
+
+def norm(c):
+    """cases written before the topologies existed are `spawn T K`"""
+    if "topo" in c:
+        return c
+    return mk("spawn", c["threads"], c["nodes"], min(c["nodes"], 60), 0, 0, c.get("rep", 0))
+
+
+def logical_threads(c):
+    c = norm(c)
+    return c["threads"] * (2 if c["topo"] in ("nested", "handoff") else 1)
+
+
+def total_draws(c):
+    """number of nodes all threads of the case create together"""
+    c = norm(c)
+    t, k, p = c["threads"], c["nodes"], c["prog"]
+    direct = k * t * (t + 1) // 2 if c["uneven"] else k * t
+    if c["topo"] == "nested":
+        return direct + k * t + 2 * t * p
+    if c["topo"] == "handoff":
+        return 2 * direct + t * p
+    return direct + t * p
+
+
+QUICK_SHAPES = [
+    # the thread counts of the first version, now with every node of the programs observed (kinds 0-3, 4 = mixed)
+    ("spawn", 2, 2, 2, 0), ("spawn", 2, 8, 8, 1), ("spawn", 3, 5, 5, 2), ("spawn", 4, 16, 16, 3), ("spawn", 8, 8, 8, 4),
+    ("spawn", 16, 4, 4, 4), ("spawn", 2, 64, 60, 4), ("spawn", 5, 33, 33, 4),
+    # one thread, more threads than cores, only program nodes, only direct nodes
+    ("spawn", 1, 5, 9, 4), ("spawn", 17, 3, 6, 4), ("spawn", 32, 2, 5, 4), ("spawn", 64, 1, 3, 4), ("spawn", 3, 0, 12, 4),
+    ("spawn", 4, 7, 0, 0),
+    # unequal numbers of draws
+    ("spawn", 4, 3, 6, 4, 1), ("spawn", 7, 5, 4, 2, 1),
+    # the main thread builds treaps too
+    ("main", 1, 5, 4, 1), ("main", 3, 8, 10, 4), ("main", 9, 4, 7, 4), ("main", 2, 0, 15, 3),
+    # a thread in the middle of its stream spawns a thread
+    ("nested", 2, 6, 6, 4), ("nested", 4, 9, 11, 4), ("nested", 1, 3, 5, 2),
+    # threads that start after others have exited
+    ("stagger", 3, 7, 8, 4), ("stagger", 17, 3, 3, 4),
+    # a treap changes its owner thread
+    ("handoff", 2, 4, 20, 4), ("handoff", 5, 0, 30, 4), ("handoff", 3, 9, 12, 3), ("handoff", 1, 2, 9, 2),
+]
 
 
 def generate(rng, tier):
     cases = []
-    shapes = [(2, 2), (2, 8), (3, 5), (4, 16), (8, 8), (16, 4), (2, 64), (5, 33)]
+    for r in range(2):
+        cases += [mk(*(sh + (0,) * (6 - len(sh))), rep=r) for sh in QUICK_SHAPES]
     if tier == "thorough":
-        shapes += [(t, k) for t in (2, 3, 4, 6, 8, 12, 16) for k in (1, 7, 50, 200)]
-    reps = 2 if tier == "quick" else 4
-    for (t, k) in shapes:
-        for r in range(reps):
-            cases.append({"threads": t, "nodes": k, "rep": r})
+        for topo in TOPOS:
+            for t in (1, 2, 3, 4, 6, 8, 12, 16, 17, 32, 64):
+                for k in (0, 1, 7, 50, 200):
+                    p = rng.choice([0, 1, 2, 3, 17, 60, 120])
+                    kind = rng.choice([0, 1, 2, 3, 4, 4])
+                    uneven = 1 if (t <= 12 and k <= 50 and rng.chance(1, 4)) else 0
+                    c = mk(topo, t, k, p, kind, uneven)
+                    while total_draws(c) > 2500 and (c["nodes"] > 7 or c["prog"] > 17):   # keep the Coq literal moderate
+                        c = mk(topo, t, max(7, c["nodes"] // 2) if c["nodes"] > 7 else c["nodes"],
+                               max(17, c["prog"] // 2) if c["prog"] > 17 else c["prog"], kind, uneven)
+                    for r in range(2):
+                        cases.append(dict(c, rep=r))
+        # draw counts around powers of two (block-buffered generators refill there)
+        for k in (255, 256, 257, 1023, 1024, 1025):
+            for (topo, t) in (("spawn", 2), ("nested", 1), ("spawn", 3)):
+                cases.append(mk(topo, t, k, 10, 4))
     return cases
 
 
 def harness_line(c):
-    return "spawn %d %d" % (c["threads"], c["nodes"])
+    c = norm(c)
+    return "run %s %d %d %d %d %d" % (c["topo"], c["threads"], c["nodes"], c["prog"], c["kind"], c["uneven"])
 
 
 def parse(obs):
@@ -156,20 +687,35 @@ def coq_term(c, obs, profile):
 
 
 def nontrivial(c, obs):
-    return c["threads"] >= 2 and c["nodes"] >= 2
+    c = norm(c)
+    return logical_threads(c) >= 2 and c["nodes"] + c["prog"] >= 2
 
 
 def classify(c, obs):
-    return "threads=%d" % c["threads"]
+    c = norm(c)
+    return "%s threads=%d" % (c["topo"], c["threads"])
 
 
 def shrink(c):
+    c = norm(c)
     out = []
-    if c["threads"] > 2:
+    if c["threads"] > 1:
         out.append(dict(c, threads=c["threads"] - 1))
-    if c["nodes"] > 1:
+        out.append(dict(c, threads=max(1, c["threads"] // 2)))
+    if c["uneven"]:
+        out.append(dict(c, uneven=0))
+    if c["nodes"] > 0:
         out.append(dict(c, nodes=c["nodes"] // 2))
-    return out
+    if c["prog"] > 0:
+        out.append(dict(c, prog=c["prog"] // 2))
+        out.append(dict(c, prog=c["prog"] - 1))
+    if c["kind"] == 4:
+        out += [dict(c, kind=k) for k in (0, 1, 2, 3)]
+    elif c["kind"] > 0:
+        out.append(dict(c, kind=0))
+    if c["topo"] != "spawn":
+        out.append(dict(c, topo="spawn"))
+    return [x for x in out if x != c]
 
 
 def acceptable(solo, lists):
@@ -187,6 +733,167 @@ def acceptable(solo, lists):
     return all(ptr[i] == len(l) for i, l in enumerate(lists))
 
 
+# ----------------------------------------------------------------------------- Miri
+def miri_run(ctx, binname, flags, timeout):
+    env = dict(os.environ, CARGO_NET_OFFLINE="true",
+               CARGO_TARGET_DIR=os.path.join(ctx.repo, "target", "verif-harness") if ctx.repo != "/repo"
+               else os.path.join(_driver.HARNESS, "target"))
+    if flags:
+        env["MIRIFLAGS"] = (env.get("MIRIFLAGS", "") + " " + flags).strip()
+    hdir = os.path.join(ctx.work, "harness") if ctx.repo != "/repo" else _driver.HARNESS
+    try:
+        p = subprocess.run(["cargo", "+nightly", "miri", "run", "--offline", "-q", "--manifest-path",
+                            os.path.join(hdir, "crates", "c17", "Cargo.toml"), "--bin", binname],
+                           stdout=subprocess.PIPE, stderr=subprocess.STDOUT, text=True, timeout=timeout, env=env)
+        return p.returncode, p.stdout
+    except Exception as e:   # cargo missing or timed out
+        return None, "miri not run: %r" % e
+
+
+def miri_output_problem(out, discipline, native_solo):
+    """the lines the Miri program printed (one execution), judged like an executor observation"""
+    reps, solos = [], []
+    for line in out.splitlines():
+        if line.startswith("L "):
+            f = [x.strip() for x in line[1:].split("#")]
+            if len(f) != 4:
+                return "unreadable line %r" % line[:200]
+            reps.append(([int(x) for x in f[0].split()], f[1], f[2], f[3] == "1"))
+        elif line.startswith("S"):
+            solos.append([int(x) for x in line[1:].split()])
+    if not reps or len(solos) != 1:
+        return "the program did not print its report lines"
+    if not all(r[3] for r in reps):
+        return "an integrity check inside a treap program failed (shadow sequence / heap order / aggregates / recorded priority)"
+    if discipline == "ThreadLocal":
+        for r in reps:
+            if r[0] != solos[0][:len(r[0])]:
+                return "a thread's priorities %s... are not a prefix of the stream a thread draws alone %s..." % (r[0][:6], solos[0][:6])
+    elif discipline in ("AtomicRMW", "Locked"):
+        # one generator for the process: every draw of the execution is in one of the lists (the late thread's
+        # included); together they must be a dealing-out of the stream one native thread draws alone
+        lists = [r[0] for r in reps] + solos
+        ref = native_solo(sum(len(l) for l in lists))
+        if not acceptable(ref, lists):
+            return "no sequential execution explains the priorities the threads obtained (lost / duplicated / foreign draw)"
+    return None
+
+
+def miri_stage(ctx, cov, viol, d):
+    t0 = time.time()
+    seeds = 3 if ctx.tier == "quick" else 12
+    replay = ("cd /verif/harness && MIRIFLAGS=-Zmiri-seed=%d cargo +nightly miri run --offline --manifest-path "
+              "crates/c17/Cargo.toml --bin c17_miri")
+    results_by_pid = {}
+
+    def native_solo(n):
+        p = subprocess.run([ctx.bins["release"], "solo", str(n)], stdout=subprocess.PIPE, text=True, timeout=600)
+        return [int(x) for x in p.stdout.split()]
+    verdict, race, done, rc = "not run", False, 0, None
+    for seed in range(seeds):
+        rc, out = miri_run(ctx, "c17_miri", "-Zmiri-seed=%d" % seed, 900)
+        if rc is None:
+            verdict = out[:300] if done == 0 else verdict + " (seed %d: %s)" % (seed, out[:100])
+            break
+        if rc == 0:
+            prob = miri_output_problem(out, d, native_solo)
+            if not prob:
+                for line in out.splitlines():
+                    f = [x.strip() for x in line[1:].split("#")] if line.startswith("L ") else None
+                    if f and f[1] != "-" and results_by_pid.setdefault(f[1], f[2]) != f[2]:
+                        prob = "program %s gave different results under different schedules" % f[1]
+            done += 1
+            verdict = "no undefined behaviour reported (%d seeds)" % done
+            if prob:
+                verdict = "no undefined behaviour, but: " + prob
+                viol.append({"name": "miri-output", "payload": {
+                    "what": "the multi-threaded treap program run under Miri printed an unacceptable observation: " + prob,
+                    "program": "harness/crates/c17/src/bin/c17_miri.rs", "miri_output": out[-3000:], "replay": replay % seed}})
+                break
+            continue
+        verdict = "REPORTED (seed %d): %s" % (seed, out[-600:])
+        if "Data race" in out or "Undefined Behavior" in out:
+            race = True
+            viol.append({"name": "miri", "payload": {
+                "what": "Miri reports undefined behaviour when threads build treaps concurrently",
+                "program": "harness/crates/c17/src/bin/c17_miri.rs", "miri_output": out[-3000:], "replay": replay % seed}})
+        elif "unsupported operation" in out:
+            verdict = "Miri cannot interpret the program (unsupported operation): " + out[-400:]
+        else:
+            # deadlock, panic, abort, build error ... or simply no working Miri here: ask the probe
+            prc, pout = miri_run(ctx, "c17_miri_probe", "", 600)
+            cov["miri_probe"] = {"rc": prc, "tail": pout[-200:]}
+            if prc == 0 and "probe ok" in pout:
+                viol.append({"name": "miri-failed", "nofail": True, "kind": "broken-obligation", "payload": {
+                    "obligation": "the multi-threaded treap program runs to completion under Miri",
+                    "what": "Miri works in this environment (the probe program, which does not call the library, ran cleanly) but "
+                            "the program that builds treaps on several threads ended with an error that is not a report of "
+                            "undefined behaviour (deadlock / panic / abort / build error)",
+                    "program": "harness/crates/c17/src/bin/c17_miri.rs", "miri_output": out[-3000:], "replay": replay % seed}})
+            else:
+                verdict = "Miri is not usable in this environment (probe failed too): " + out[-300:]
+        break
+    cov["miri"] = {"rc": rc, "seeds_completed": done, "wall_s": round(time.time() - t0, 1), "verdict": verdict}
+    return race
+
+
+# ----------------------------------------------------------------------------- stress
+def stress_shapes(tier):
+    """(topology, threads, direct draws, program size, kind, uneven): checked against the spec in Python"""
+    q = [("spawn", 8, 20000, 60, 4, 0), ("spawn", 16, 5000, 200, 4, 0),
+         ("main", 32, 1000, 300, 4, 0), ("spawn", 64, 100, 64, 4, 1),          # more threads than cores
+         ("nested", 8, 4097, 100, 4, 0), ("handoff", 8, 1025, 600, 3, 0),
+         ("spawn", 2, 65537, 0, 0, 0), ("spawn", 3, 4096, 2000, 4, 0)]        # refill boundaries; long programs
+    if tier == "quick":
+        return q
+    t = list(q)
+    t += [("spawn", 8, 100000, 60, 4, 0), ("spawn", 16, 50000, 60, 4, 0), ("spawn", 4, 200000, 0, 0, 0), ("spawn", 2, 400000, 0, 0, 0),
+          ("spawn", 4, 300000, 10, 4, 0),                                    # more than 2^20 draws in the process
+          ("main", 64, 2000, 500, 4, 0), ("stagger", 40, 1000, 100, 4, 0), ("nested", 32, 513, 300, 4, 0),
+          ("handoff", 16, 100, 2000, 4, 0), ("spawn", 16, 10, 2000, 4, 0), ("spawn", 12, 700, 50, 4, 1)]
+    for k in (255, 256, 257, 1023, 1024, 1025, 4095, 4096, 4097, 65535, 65536, 65537):
+        t.append(("spawn", 2 + k % 2, k, 3, 1, 0))
+    return t
+
+
+def stress_stage(ctx, cov, viol, quiet):
+    runs = stress_shapes(ctx.tier)
+    reps = 1 if ctx.tier == "quick" else 3
+    bad, total = None, 0
+    for profile in PROFILES:
+        binp = ctx.bins[profile]
+        for sh in runs:
+            line = "run %s %d %d %d %d %d" % sh
+            for rep in range(reps):
+                o = _driver.run_impl(binp, [line])[0]
+                total += 1
+                if o == "P":
+                    bad = (sh, profile, "panic / a child process failed")
+                    break
+                solo, lists, eq = parse(o)
+                if not eq:
+                    bad = (sh, profile, "treap results differ from the same program run alone, or an integrity check inside a "
+                                        "program failed (shadow sequence / heap order / aggregates / recorded priority)")
+                    break
+                if not acceptable(solo, lists):
+                    fb = next(i for i, l in enumerate(lists) if l != solo[:len(l)])
+                    at = next((j for j, x in enumerate(lists[fb]) if j >= len(solo) or x != solo[j]), 0)
+                    bad = (sh, profile, "no sequential execution explains the lists; list %d leaves the solo stream at its "
+                                        "draw %d: %s vs solo %s" % (fb, at, lists[fb][max(0, at - 2):at + 3], solo[max(0, at - 2):at + 3]))
+                    break
+            if bad:
+                break
+        if bad:
+            break
+    cov["stress_runs"] = total
+    cov["stress_shapes"] = ["%s T=%d K=%d P=%d kind=%d uneven=%d" % sh for sh in runs]
+    cov["stress_profiles"] = list(PROFILES)
+    if bad and not quiet:
+        viol.append({"name": "stress", "payload": {
+            "what": "real threads observed priority lists that no sequential execution explains (or treap results differ from solo)",
+            "executor_line": "run %s %d %d %d %d %d" % bad[0], "profile": bad[1], "detail": bad[2]}})
+
+
 def extra(ctx, known):
     cov, viol = {}, []
     d = _state.get("discipline", "Unknown")
@@ -197,64 +904,21 @@ def extra(ctx, known):
     path = os.path.join(ctx.work, "Current.v")
     with open(path, "w") as f:
         f.write(AUDIT_IMPORT + "\n")
-        f.write("(* generated by checks/c17.py from rlib/treap/src/treap_node.rs *)\n")
+        f.write("(* generated by checks/c17.py from the sources of the treap crate and its path dependencies *)\n")
         f.write("Definition current_discipline : discipline := %s.\n" % (d if d != "Unknown" else "Racy"))
         f.write("Lemma current_safe : forall (G : Type) (step : G -> G) (out : G -> N), safe step out current_discipline.\n")
         f.write("Proof. exact %s. Qed.\nPrint Assumptions current_safe.\n" % (thm or "c17_threadlocal_safe"))
     rc, out = _driver.coqc(path, ctx.work)
     cov["obligation_current_safe"] = "holds" if (rc == 0 and thm) else "FAILS"
     obligation_ok = rc == 0 and thm is not None
-    # 2. Miri on the two-thread program
-    t0 = time.time()
-    env = dict(os.environ, CARGO_NET_OFFLINE="true",
-               CARGO_TARGET_DIR=os.path.join(ctx.repo, "target", "verif-harness") if ctx.repo != "/repo"
-               else os.path.join(_driver.HARNESS, "target"))
-    hdir = os.path.join(ctx.work, "harness") if ctx.repo != "/repo" else _driver.HARNESS
-    try:
-        p = subprocess.run(["cargo", "+nightly", "miri", "run", "--offline", "-q", "--manifest-path",
-                            os.path.join(hdir, "crates", "c17", "Cargo.toml"), "--bin", "c17_miri"],
-                           stdout=subprocess.PIPE, stderr=subprocess.STDOUT, text=True, timeout=900, env=env)
-        miri_out, miri_rc = p.stdout, p.returncode
-    except Exception as e:   # miri missing or timed out: say so, do not fail the check
-        miri_out, miri_rc = "miri not run: %r" % e, None
-    cov["miri"] = {"rc": miri_rc, "wall_s": round(time.time() - t0, 1),
-                   "verdict": ("no undefined behaviour reported" if miri_rc == 0 else
-                               ("not run" if miri_rc is None else "REPORTED: " + miri_out[-600:]))}
-    miri_race = miri_rc not in (0, None) and ("Data race" in miri_out or "Undefined Behavior" in miri_out)
-    if miri_race:
-        viol.append({"name": "miri", "payload": {
-            "what": "Miri reports undefined behaviour when two threads create treap nodes concurrently",
-            "program": "harness/crates/c17/src/bin/c17_miri.rs", "miri_output": miri_out[-3000:],
-            "replay": "cd /verif/harness && cargo +nightly miri run --offline --manifest-path crates/c17/Cargo.toml --bin c17_miri"}})
-    # 3. stress: big runs checked against the spec in Python (too large for a Coq literal)
-    binp = ctx.bins["release"]
-    runs = [(8, 20000), (16, 5000)] if ctx.tier == "quick" else [(8, 100000), (16, 50000), (4, 200000), (2, 400000)]
-    bad, total = None, 0
-    for (t, k) in runs:
-        for rep in range(2 if ctx.tier == "quick" else 4):
-            o = _driver.run_impl(binp, ["spawn %d %d" % (t, k)])[0]
-            total += 1
-            if o == "P":
-                bad = (t, k, "panic")
-                break
-            solo, lists, eq = parse(o)
-            if not (eq and acceptable(solo, lists)):
-                firstbad = next((i for i, l in enumerate(lists) if l != solo[:len(l)]), None)
-                bad = (t, k, "thread %s: %s... vs solo %s..." % (firstbad, lists[firstbad][:6] if firstbad is not None else "", solo[:6]))
-                break
-        if bad:
-            break
-    cov["stress_runs"] = total
-    cov["stress_shapes"] = runs
-    if bad and not miri_race:
-        viol.append({"name": "stress", "payload": {
-            "what": "real threads observed priority lists that no sequential execution explains (or treap results differ from solo)",
-            "threads": bad[0], "nodes_per_thread": bad[1], "detail": bad[2]}})
+    # 2. Miri on the multi-threaded program
+    miri_race = miri_stage(ctx, cov, viol, d)
+    # 3. stress: big runs, both profiles, checked against the spec in Python (too large for a Coq literal)
+    stress_stage(ctx, cov, viol, miri_race)
     if not obligation_ok and not viol:
         viol.append({"name": "discipline", "nofail": True, "payload": {
             "obligation": "current_safe : safe <extracted discipline> (generated Current.v) — extracted discipline is %s, "
-                          "for which no safety theorem exists (Racy/SplitAtomic are refuted in Properties.v; Unknown = not classified)" % d,
+                          "for which no safety theorem exists (Racy/SplitAtomic are refuted in Properties.v; Unknown = not "
+                          "classified, see extractor_facts.unknown_because)" % d,
             "extractor_facts": _state.get("facts"), "coq_output": out[-1500:]}})
-    elif not obligation_ok and viol:
-        pass
     return {"coverage": cov, "violations": viol, "known": []}
